@@ -364,9 +364,19 @@ func ruleTabShim(c *Ctx, r *R) {
 		}
 		argc, ok1 := c.ConstInt(call.Args[0])
 		rets, ok2 := c.ConstInt(call.Args[1])
-		fl, ok3 := unparen(call.Args[2]).(*ast.FuncLit)
+		var fl *ast.FuncLit
+		ok3 := false
+		switch f := unparen(call.Args[2]).(type) {
+		case *ast.FuncLit:
+			fl, ok3 = f, true
+		case *ast.Ident:
+			// a package-level function used as the native: judge its body
+			if hd := c.DeclOf(c.Obj(f)); hd != nil && hd.Body != nil {
+				fl, ok3 = &ast.FuncLit{Type: hd.Type, Body: hd.Body}, true
+			}
+		}
 		if !ok1 || !ok2 || !ok3 {
-			r.undecided("shim "+sh.Key, pos, "NewFunc registration with non-constant counts or a non-literal function")
+			r.undecided("shim "+sh.Key, pos, "NewFunc registration with non-constant counts or a function that is neither a literal nor a declared function")
 			continue
 		}
 		// calls into the package named by the key
